@@ -44,6 +44,19 @@ func setup(dir, tag string) (*chain.Chain, *chain.World) {
 		if _, err := c.CommitExec(b); err != nil {
 			panic(err)
 		}
+		// deployed helper contracts of the hostile scripts: one that calls itself without end
+		d, err := w.TB.Deploy(0, 30000000, recurseCode(), "c12-recurse")
+		if err != nil {
+			panic(err)
+		}
+		chain.Sign(d, w.Accts[0])
+		b2, err := c.MakeBlock([]*types.Transaction{chain.Immutable(d)}, 0)
+		if err != nil {
+			panic(err)
+		}
+		if _, err := c.CommitExec(b2); err != nil {
+			panic(err)
+		}
 	}
 	return c, w
 }
@@ -129,8 +142,14 @@ func execCase(c *chain.Chain, w *chain.World, k kase, i int) string {
 func genCases(seed uint64, n int, w *chain.World) []kase {
 	rng := vf.NewRNG(seed)
 	out := make([]kase, n)
+	sweep := nativeSweep()
 	for i := range out {
 		x := &g{r: rng.Sub(uint64(i)), kv: w.KV, me: w.Accts[0].Address}
+		if i < len(sweep) && i < n*3/4 {
+			// systematic part: every native method x every hostile-count template, once per run
+			out[i] = sweep[i]
+			continue
+		}
 		if x.r.Chance(82) {
 			out[i] = x.neovmCase()
 		} else {
@@ -191,7 +210,7 @@ func main() {
 	base := filepath.Join(scratch, "base")
 	c0, w := setup(base, tag)
 	c0.Close()
-	N := vf.N(12000, 300000)
+	N := vf.N(20000, 300000)
 	batch := 400
 	cases := genCases(vf.Seed(), N, w)
 	for i, k := range cases {
